@@ -188,9 +188,10 @@ FRESH_EMPTY = {'std::vec::Vec::<T>::with_capacity', 'std::vec::Vec::<T>::new'}
 
 
 class ElemEngine:
-    def __init__(self, prog):
+    def __init__(self, prog, ints=False):
         self.prog = prog
         self.pdb = prog.pdb
+        self.ints = ints          # keep integer arithmetic / integer fields symbolic (formula extraction) instead of the opaque INT
         self._memo = {}
         self._stack = []
         self._supp = ()
@@ -276,6 +277,11 @@ class ElemEngine:
                 a = flat(self.ev(env, t[2]))
                 b = flat(self.ev(env, t[3]))
                 return frozenset(('b', t[1], x, y) for x in a for y in b)
+            if self.ints and t[1] in ('Add', 'Sub', 'Mul', 'Div', 'Rem') and t[4] in ('usize', 'u64', 'i64', 'i32', 'u32', 'isize'):
+                a = flat(self.ev(env, t[2]))
+                b = flat(self.ev(env, t[3]))
+                if a and b and INT not in a and INT not in b and not has_top(a) and not has_top(b):
+                    return frozenset(('b', 'I' + t[1], x, y) for x in a for y in b)
             return frozenset([INT])
         if k == 'un':
             if t[3] == 'f64' and t[1] == 'Neg':
@@ -286,11 +292,20 @@ class ElemEngine:
                 inner = flat(self.ev(env, t[2]))
                 if inner and all(e[0] in ('ci', 'len', 'sym', 'fld', 'cast') for e in inner):
                     return frozenset(('cast', e) for e in inner)
+                if self.ints and inner and INT not in inner and not has_top(inner):
+                    return frozenset(('cast', e) for e in inner)
                 return frozenset([('cast', INT)])
             if t[1] == 'IntToInt':
                 inner = flat(self.ev(env, t[2]))
                 if inner and all(e[0] in ('ci', 'len', 'sym', 'fld') for e in inner):
                     return inner
+                if self.ints and inner and INT not in inner and not has_top(inner):
+                    return inner
+                return frozenset([INT])
+            if t[1] == 'FloatToInt' and self.ints:
+                inner = flat(self.ev(env, t[2]))
+                if inner and INT not in inner and not has_top(inner):
+                    return frozenset(('f2i', e) for e in inner)
                 return frozenset([INT])
             if t[1] == 'FloatToFloat':
                 return self.ev(env, t[2])
@@ -325,6 +340,8 @@ class ElemEngine:
                     return bav[1][t[2]]
                 return top('tuple field out of range')
             if ty is not None and strip_ref(ty) in ('usize', 'i32', 'u32', 'i64', 'u64', 'bool', 'isize'):
+                if self.ints and strip_ref(ty) != 'bool' and not is_tuple(bav):
+                    return frozenset(('fld', x, t[2]) for x in flat(bav))
                 return frozenset([INT])
             if ty is not None and strip_ref(ty) in self.pdb.adts and not is_arrayish_ty(ty):
                 # a struct-valued field (e.g. an embedded sampler): keep it as a structured symbol
